@@ -41,7 +41,7 @@ Choices ==
   \cup {<<"Double", f>> : f \in {<<0,0,0,0,0,0,0,0>>, <<127,248,0,0,0,0,0,1>>}}
   \cup {<<op, Payload(n)>> : op \in {"Blob", "Text", "ShortBytes", "IntBytes", "TextShort"}, n \in BlobLens}
   \cup {<<"IntArr", a>> : a \in {<<>>, <<P2(0)>>, <<Neg(P2(0)), P2(31 - 8)>>}}
-  \cup {<<"Raw", Payload(n)>> : n \in BlobLens}
+  \cup {<<"Raw", Payload(n)>> : n \in {m \in BlobLens : m <= 256}}    \* raw bytes have no length cell: small payloads only
   \cup {<<"TextArr", a>> : a \in {<<>>, <<Payload(0), Payload(254)>>, <<Payload(1), Payload(0), Payload(2)>>}}
   \cup {<<"LongArr", a>> : a \in {<<>>, <<Neg(P2(39))>>}}
 
